@@ -13,7 +13,7 @@ import (
 const vhC02 = chkC02Sign | chkC02Save
 
 // VH_C02_Seq: one process life. Height 1 round 0 entered with no votes yet (0/1 header),
-// then 3 (quick) / 4 (thorough) events of any kind: view updates, timeouts, strategy
+// then 3 events of any kind (thorough: plus 1 event without new vote numbers): view updates, timeouts, strategy
 // answers (any hash, late, duplicate), proposal, block data, finalization, jump-ahead.
 // At most one of the events is a view update with new vote numbers.
 func VH_C02_Seq() {
@@ -25,11 +25,12 @@ func VH_C02_Seq() {
 		return
 	}
 	e.check(vhC02)
-	n := 3
-	if verifrt.Thorough() {
-		n = 4
+	e.run(vhC02, vhEvents(), 3)
+	if verifrt.Thorough() && e.alive {
+		// (a 4th event of any kind did not finish within the thorough budget: 203846 paths in
+		// 1500 s; the 4th event is one that brings no new vote numbers)
+		e.run(vhC02, vhTailEvents, 1)
 	}
-	e.run(vhC02, vhEvents(), n)
 	if e.seen&vhSeenVoteReleased != 0 {
 		verifrt.Reach("C02-seq:vote-released")
 	}
@@ -39,8 +40,8 @@ func VH_C02_Seq() {
 	e.finish()
 }
 
-// VH_C02_StartAny: start-up answered with an arbitrary view, then 2 (quick) / 3 (thorough)
-// events, at most one with new vote numbers (precommit answers in rounds entered late).
+// VH_C02_StartAny: start-up answered with an arbitrary view, then 2 events (thorough: plus 1
+// event without new vote numbers), at most one with new vote numbers (precommit answers in rounds entered late).
 func VH_C02_StartAny() {
 	vhOpts()
 	e := vhNewSM(true)
@@ -49,11 +50,11 @@ func VH_C02_StartAny() {
 		return
 	}
 	e.check(vhC02)
-	n := 2
-	if verifrt.Thorough() {
-		n = 3
+	e.run(vhC02, vhEvents(), 2)
+	if verifrt.Thorough() && e.alive {
+		// (3 events of any kind: 139740 paths in 1500 s without finishing; reduced)
+		e.run(vhC02, vhTailEvents, 1)
 	}
-	e.run(vhC02, vhEvents(), n)
 	if e.seen&vhSeenVoteReleased != 0 {
 		verifrt.Reach("C02-start:vote-released")
 	}
